@@ -200,6 +200,8 @@ pub fn parse_exponent_sign<const FORMAT: u128>(byte: &mut Bytes<'_, FORMAT>) -> 
 ///
 /// - `format` - The numerical format as a packed integer
 /// - `byte` - The `DigitsIter` iterator
+/// - `special` - The bytes after the sign, before any digit separators were
+///   skipped, to parse special numbers from
 /// - `is_negative` - If the final value is negative
 /// - `parse_normal` - The function to parse non-special numbers with
 /// - `parse_special` - The function to parse special numbers with
@@ -207,6 +209,7 @@ macro_rules! parse_number {
     (
         $format:ident,
         $byte:ident,
+        $special:ident,
         $is_negative:ident,
         $options:ident,
         $parse_normal:ident,
@@ -216,7 +219,7 @@ macro_rules! parse_number {
             Ok(n) => n,
             Err(e) => {
                 if let Some(value) =
-                    $parse_special::<_, $format>($byte.clone(), $is_negative, $options)
+                    $parse_special::<_, $format>($special.clone(), $is_negative, $options)
                 {
                     return Ok(value);
                 } else {
@@ -250,6 +253,9 @@ pub fn parse_complete<F: LemireFloat, const FORMAT: u128>(
 ) -> Result<F> {
     let mut byte = bytes.bytes::<{ FORMAT }>();
     let is_negative = parse_mantissa_sign(&mut byte)?;
+    // NOTE: Looking at the integer digits skips leading digit separators,
+    // which a special value must not be preceded by.
+    let special = byte.clone();
     if byte.integer_iter().is_consumed() {
         if NumberFormat::<FORMAT>::REQUIRED_INTEGER_DIGITS
             || NumberFormat::<FORMAT>::REQUIRED_MANTISSA_DIGITS
@@ -263,7 +269,7 @@ pub fn parse_complete<F: LemireFloat, const FORMAT: u128>(
 
     // Parse our a small representation of our number.
     let num: Number<'_> =
-        parse_number!(FORMAT, byte, is_negative, options, parse_complete_number, parse_special);
+        parse_number!(FORMAT, byte, special, is_negative, options, parse_complete_number, parse_special);
     // Try the fast-path algorithm.
     if let Some(value) = num.try_fast_path::<_, FORMAT>() {
         return Ok(value);
@@ -294,6 +300,9 @@ pub fn fast_path_complete<F: LemireFloat, const FORMAT: u128>(
 ) -> Result<F> {
     let mut byte = bytes.bytes::<{ FORMAT }>();
     let is_negative = parse_mantissa_sign(&mut byte)?;
+    // NOTE: Looking at the integer digits skips leading digit separators,
+    // which a special value must not be preceded by.
+    let special = byte.clone();
     if byte.integer_iter().is_consumed() {
         if NumberFormat::<FORMAT>::REQUIRED_INTEGER_DIGITS
             || NumberFormat::<FORMAT>::REQUIRED_MANTISSA_DIGITS
@@ -307,7 +316,7 @@ pub fn fast_path_complete<F: LemireFloat, const FORMAT: u128>(
 
     // Parse our a small representation of our number.
     let num =
-        parse_number!(FORMAT, byte, is_negative, options, parse_complete_number, parse_special);
+        parse_number!(FORMAT, byte, special, is_negative, options, parse_complete_number, parse_special);
     Ok(num.force_fast_path::<_, FORMAT>())
 }
 
@@ -320,6 +329,9 @@ pub fn parse_partial<F: LemireFloat, const FORMAT: u128>(
 ) -> Result<(F, usize)> {
     let mut byte = bytes.bytes::<{ FORMAT }>();
     let is_negative = parse_mantissa_sign(&mut byte)?;
+    // NOTE: Looking at the integer digits skips leading digit separators,
+    // which a special value must not be preceded by.
+    let special = byte.clone();
     if byte.integer_iter().is_consumed() {
         if NumberFormat::<FORMAT>::REQUIRED_INTEGER_DIGITS
             || NumberFormat::<FORMAT>::REQUIRED_MANTISSA_DIGITS
@@ -335,6 +347,7 @@ pub fn parse_partial<F: LemireFloat, const FORMAT: u128>(
     let (num, count) = parse_number!(
         FORMAT,
         byte,
+        special,
         is_negative,
         options,
         parse_partial_number,
@@ -370,6 +383,9 @@ pub fn fast_path_partial<F: LemireFloat, const FORMAT: u128>(
 ) -> Result<(F, usize)> {
     let mut byte = bytes.bytes::<{ FORMAT }>();
     let is_negative = parse_mantissa_sign(&mut byte)?;
+    // NOTE: Looking at the integer digits skips leading digit separators,
+    // which a special value must not be preceded by.
+    let special = byte.clone();
     if byte.integer_iter().is_consumed() {
         if NumberFormat::<FORMAT>::REQUIRED_INTEGER_DIGITS
             || NumberFormat::<FORMAT>::REQUIRED_MANTISSA_DIGITS
@@ -385,6 +401,7 @@ pub fn fast_path_partial<F: LemireFloat, const FORMAT: u128>(
     let (num, count) = parse_number!(
         FORMAT,
         byte,
+        special,
         is_negative,
         options,
         parse_partial_number,
